@@ -1,6 +1,9 @@
 //! Verification hooks (feature `verif-hooks`, default off, add-only).
 //!
 //! * Re-export of the inner-product argument entry points, which live in a private module.
+//! * Re-export of the light self-emulation back-end (fake curve chip, its point type, the
+//!   `SelfEmulation` implementation and its Fiat-Shamir hash), which live in private modules,
+//!   so that the verifier gadget can be instantiated with it outside of this crate.
 //! * A thread-local log of the scalar vector of the final multi-scalar multiplication of
 //!   `ipa_verify` (the `2k` squared challenges, the recursively built folding coefficients,
 //!   their `r` multiples, `1` and `r`), as canonical little-endian bytes in MSM order.
@@ -11,7 +14,11 @@ use std::cell::RefCell;
 
 use ff::PrimeField;
 
-pub use crate::inner_product_argument::{ipa_prove, ipa_verify};
+pub use crate::{
+    inner_product_argument::{ipa_prove, ipa_verify},
+    light_fiat_shamir::LightPoseidonFS,
+    light_self_emulation::{FakeCurveChip, FakePoint, LightBlstrsEmulation},
+};
 
 thread_local! {
     static IPA_SCALARS: RefCell<Option<Vec<Vec<Vec<u8>>>>> = const { RefCell::new(None) };
